@@ -48,7 +48,6 @@ func (t *Term) absorb(o *Term) {
 	t.Shared = t.Shared || o.Shared
 	t.HasMap = t.HasMap || o.HasMap
 	t.Volatile = t.Volatile || o.Volatile
-	t.Opaque = t.Opaque || o.Opaque
 }
 
 func derive(s string, parts ...*Term) *Term {
